@@ -1,7 +1,659 @@
-//! Cross-front-end check: recompute, with the Rust API, the cases that `tools/pyfront.py`
-//! produced through the Python front end (stub; owned by the `pyfront` component author).
+//! Cross-front-end check (C06, "Rust and Python front ends agree"): recompute, with the Rust
+//! API that `/repo/src/pybindings` itself calls, the cases that `tools/pyfront.py` produced
+//! through the Python front end, and compare compressed words and decoded symbols.
+//!
+//! Input: one flat JSON object per line (written by `tools/pyfront.py`, which owns the other
+//! end of this format).  Values are integers, strings without escapes, or flat integer arrays:
+//!
+//!   id       case number                      tag     free text identifying seed/tier (echoed)
+//!   coder    "ans" | "range" | "chain"
+//!   model    "cat" | "gauss" | "laplace" | "cauchy" | "uniform" | "bernoulli" | "binomial"
+//!   variant  cat: "fast" | "lazy" | "perfect";  bernoulli: "fast" | "perfect";  else ""
+//!   fbits    32 | 64: element width of every float *array* (scalars are always f64 bits)
+//!   n        number of symbols
+//!   cat:     family 0|1, ncols, probs = flat bit patterns (1 row if family = 0, else n rows)
+//!   others:  lo, hi (quantizer support); p0kind/p1kind "s" (scalar given to the constructor),
+//!            "a" (per-symbol array given to encode/decode) or "-" (no such parameter);
+//!            p0, p1 = [one entry] or [n entries]; floats as bit patterns, ints as values
+//!   msg      symbols (ans, range)             data    input words (chain, `seal=True`)
+//!   pywords  Python `get_compressed()`        pydecoded  Python `decode(..)`
+//!   chain:   pyprefix, pysuffix = `get_remainders()`; pyrecprefix, pyrecsuffix =
+//!            `get_data(unseal=True)` after `encode_reverse` of the decoded symbols
+//!
+//! Which Rust constructors correspond to which Python call was read off
+//! `/repo/src/pybindings/stream/model.rs` and `model/internals.rs` (see `build_one`).
 #![allow(unused)]
 use crate::util::*;
+use constriction::stream::chain::DefaultChainCoder;
+use constriction::stream::model::{
+    DecoderModel, DefaultContiguousCategoricalEntropyModel,
+    DefaultLazyContiguousCategoricalEntropyModel, DefaultLeakyQuantizer, EncoderModel,
+    EntropyModel, UniformModel,
+};
+use constriction::stream::queue::{DefaultRangeDecoder, DefaultRangeEncoder};
+use constriction::stream::stack::DefaultAnsCoder;
+use constriction::stream::{Decode, Encode};
+use core::borrow::Borrow;
+use core::num::NonZeroU32;
+use std::collections::BTreeMap;
+
+// ---------------------------------------------------------------------------------------
+// tiny parser for the flat JSON lines
+
+#[derive(Debug, Clone)]
+enum J {
+    Int(i128),
+    Str(String),
+    Arr(Vec<i128>),
+}
+
+struct P<'a> {
+    s: &'a [u8],
+    i: usize,
+}
+
+impl<'a> P<'a> {
+    fn ws(&mut self) {
+        while self.i < self.s.len() && (self.s[self.i] as char).is_ascii_whitespace() {
+            self.i += 1;
+        }
+    }
+    fn eat(&mut self, c: u8) -> Option<()> {
+        self.ws();
+        if self.i < self.s.len() && self.s[self.i] == c {
+            self.i += 1;
+            Some(())
+        } else {
+            None
+        }
+    }
+    fn peek(&mut self) -> Option<u8> {
+        self.ws();
+        self.s.get(self.i).copied()
+    }
+    fn string(&mut self) -> Option<String> {
+        self.eat(b'"')?;
+        let start = self.i;
+        while self.i < self.s.len() && self.s[self.i] != b'"' {
+            if self.s[self.i] == b'\\' {
+                return None; // escapes are never emitted
+            }
+            self.i += 1;
+        }
+        let r = std::str::from_utf8(&self.s[start..self.i]).ok()?.to_string();
+        self.eat(b'"')?;
+        Some(r)
+    }
+    fn int(&mut self) -> Option<i128> {
+        self.ws();
+        let start = self.i;
+        if self.i < self.s.len() && self.s[self.i] == b'-' {
+            self.i += 1;
+        }
+        while self.i < self.s.len() && self.s[self.i].is_ascii_digit() {
+            self.i += 1;
+        }
+        std::str::from_utf8(&self.s[start..self.i]).ok()?.parse::<i128>().ok()
+    }
+    fn value(&mut self) -> Option<J> {
+        match self.peek()? {
+            b'"' => Some(J::Str(self.string()?)),
+            b'[' => {
+                self.eat(b'[')?;
+                let mut v = Vec::new();
+                if self.peek()? == b']' {
+                    self.eat(b']')?;
+                    return Some(J::Arr(v));
+                }
+                loop {
+                    v.push(self.int()?);
+                    match self.peek()? {
+                        b',' => {
+                            self.eat(b',')?;
+                        }
+                        b']' => {
+                            self.eat(b']')?;
+                            return Some(J::Arr(v));
+                        }
+                        _ => return None,
+                    }
+                }
+            }
+            _ => Some(J::Int(self.int()?)),
+        }
+    }
+    fn object(&mut self) -> Option<BTreeMap<String, J>> {
+        let mut m = BTreeMap::new();
+        self.eat(b'{')?;
+        if self.peek()? == b'}' {
+            self.eat(b'}')?;
+            return Some(m);
+        }
+        loop {
+            let k = self.string()?;
+            self.eat(b':')?;
+            let v = self.value()?;
+            m.insert(k, v);
+            match self.peek()? {
+                b',' => {
+                    self.eat(b',')?;
+                }
+                b'}' => {
+                    self.eat(b'}')?;
+                    self.ws();
+                    return if self.i == self.s.len() { Some(m) } else { None };
+                }
+                _ => return None,
+            }
+        }
+    }
+}
+
+fn parse_line(line: &str) -> Option<BTreeMap<String, J>> {
+    P { s: line.as_bytes(), i: 0 }.object()
+}
+
+struct Case(BTreeMap<String, J>);
+
+impl Case {
+    fn int(&self, k: &str) -> Result<i128, String> {
+        match self.0.get(k) {
+            Some(J::Int(x)) => Ok(*x),
+            _ => Err(format!("missing integer field `{}`", k)),
+        }
+    }
+    fn str(&self, k: &str) -> Result<&str, String> {
+        match self.0.get(k) {
+            Some(J::Str(x)) => Ok(x.as_str()),
+            _ => Err(format!("missing string field `{}`", k)),
+        }
+    }
+    fn arr(&self, k: &str) -> Result<&[i128], String> {
+        match self.0.get(k) {
+            Some(J::Arr(x)) => Ok(x.as_slice()),
+            _ => Err(format!("missing array field `{}`", k)),
+        }
+    }
+    fn i32s(&self, k: &str) -> Result<Vec<i32>, String> {
+        self.arr(k)?
+            .iter()
+            .map(|&x| i32::try_from(x).map_err(|_| format!("`{}`: {} is not an i32", k, x)))
+            .collect()
+    }
+    fn u32s(&self, k: &str) -> Result<Vec<u32>, String> {
+        self.arr(k)?
+            .iter()
+            .map(|&x| u32::try_from(x).map_err(|_| format!("`{}`: {} is not a u32", k, x)))
+            .collect()
+    }
+}
+
+// ---------------------------------------------------------------------------------------
+// the type-erased model the bindings use (`DefaultEntropyModel` + `EncoderDecoderModel`)
+
+trait DynModel {
+    fn lcp(&self, symbol: i32) -> Option<(u32, NonZeroU32)>;
+    fn qf(&self, quantile: u32) -> (i32, u32, NonZeroU32);
+}
+
+#[derive(Clone, Copy)]
+struct W<'a>(&'a dyn DynModel);
+
+impl EntropyModel<24> for W<'_> {
+    type Symbol = i32;
+    type Probability = u32;
+}
+impl EncoderModel<24> for W<'_> {
+    fn left_cumulative_and_probability(&self, symbol: impl Borrow<i32>) -> Option<(u32, NonZeroU32)> {
+        self.0.lcp(*symbol.borrow())
+    }
+}
+impl DecoderModel<24> for W<'_> {
+    fn quantile_function(&self, quantile: u32) -> (i32, u32, NonZeroU32) {
+        self.0.qf(quantile)
+    }
+}
+
+/// models over `usize` symbols: the bindings cast `symbol as usize` / `symbol as i32`
+macro_rules! dyn_usize {
+    ([$($gen:tt)*] $ty:ty) => {
+        impl<$($gen)*> DynModel for $ty {
+            fn lcp(&self, symbol: i32) -> Option<(u32, NonZeroU32)> {
+                EncoderModel::<24>::left_cumulative_and_probability(self, symbol as usize)
+            }
+            fn qf(&self, quantile: u32) -> (i32, u32, NonZeroU32) {
+                let (s, c, p) = DecoderModel::<24>::quantile_function(self, quantile);
+                (s as i32, c, p)
+            }
+        }
+    };
+}
+dyn_usize!([] DefaultContiguousCategoricalEntropyModel);
+dyn_usize!([] DefaultLazyContiguousCategoricalEntropyModel<f32, Vec<f32>>);
+dyn_usize!([] DefaultLazyContiguousCategoricalEntropyModel<f64, Vec<f64>>);
+dyn_usize!([] UniformModel<u32, 24>);
+
+/// models over `i32` symbols (leakily quantized distributions)
+struct Direct<M>(M);
+impl<M> DynModel for Direct<M>
+where
+    M: EncoderModel<24, Symbol = i32, Probability = u32> + DecoderModel<24>,
+{
+    fn lcp(&self, symbol: i32) -> Option<(u32, NonZeroU32)> {
+        self.0.left_cumulative_and_probability(symbol)
+    }
+    fn qf(&self, quantile: u32) -> (i32, u32, NonZeroU32) {
+        self.0.quantile_function(quantile)
+    }
+}
+
+fn f_of(bits: i128, fbits: i128) -> Result<f64, String> {
+    if fbits == 32 {
+        let b = u32::try_from(bits).map_err(|_| "f32 bit pattern out of range".to_string())?;
+        Ok(f32::from_bits(b) as f64) // the bindings cast f32 arrays to f64 (`cast_f64`)
+    } else {
+        let b = u64::try_from(bits).map_err(|_| "f64 bit pattern out of range".to_string())?;
+        Ok(f64::from_bits(b))
+    }
+}
+
+fn cat_rows_f32(bits: &[i128]) -> Result<Vec<f32>, String> {
+    bits.iter()
+        .map(|&b| u32::try_from(b).map(f32::from_bits).map_err(|_| "f32 bit pattern out of range".to_string()))
+        .collect()
+}
+fn cat_rows_f64(bits: &[i128]) -> Result<Vec<f64>, String> {
+    bits.iter()
+        .map(|&b| u64::try_from(b).map(f64::from_bits).map_err(|_| "f64 bit pattern out of range".to_string()))
+        .collect()
+}
+
+/// `Categorical(p, lazy=.., perfect=..)` and the rows of a `Categorical(perfect=..)` family
+/// (`parameterize_categorical` in model.rs resp. internals.rs).
+fn build_cat(variant: &str, fbits: i128, row: &[i128]) -> Result<Box<dyn DynModel>, String> {
+    let bad = |()| "Rust constructor rejected the probabilities".to_string();
+    Ok(match (variant, fbits) {
+        ("fast", 32) => Box::new(
+            DefaultContiguousCategoricalEntropyModel::from_floating_point_probabilities_fast(&cat_rows_f32(row)?, None)
+                .map_err(bad)?,
+        ),
+        ("fast", 64) => Box::new(
+            DefaultContiguousCategoricalEntropyModel::from_floating_point_probabilities_fast(&cat_rows_f64(row)?, None)
+                .map_err(bad)?,
+        ),
+        ("perfect", 32) => Box::new(
+            DefaultContiguousCategoricalEntropyModel::from_floating_point_probabilities_perfect(&cat_rows_f32(row)?)
+                .map_err(bad)?,
+        ),
+        ("perfect", 64) => Box::new(
+            DefaultContiguousCategoricalEntropyModel::from_floating_point_probabilities_perfect(&cat_rows_f64(row)?)
+                .map_err(bad)?,
+        ),
+        ("lazy", 32) => Box::new(
+            DefaultLazyContiguousCategoricalEntropyModel::<f32, Vec<f32>>::from_floating_point_probabilities_fast(
+                cat_rows_f32(row)?,
+                None,
+            )
+            .map_err(bad)?,
+        ),
+        ("lazy", 64) => Box::new(
+            DefaultLazyContiguousCategoricalEntropyModel::<f64, Vec<f64>>::from_floating_point_probabilities_fast(
+                cat_rows_f64(row)?,
+                None,
+            )
+            .map_err(bad)?,
+        ),
+        _ => return Err(format!("unknown categorical variant {}/{}", variant, fbits)),
+    })
+}
+
+/// one fully parameterised non-categorical model
+fn build_one(model: &str, variant: &str, lo: i32, hi: i32, p0: i128, p0f: f64, p1f: f64) -> Result<Box<dyn DynModel>, String> {
+    use probability::distribution::{Binomial, Cauchy, Gaussian, Laplace};
+    Ok(match model {
+        "gauss" | "laplace" | "cauchy" => {
+            if !(p1f > 0.0) {
+                return Err("scale parameter not positive (generator error)".into());
+            }
+            let q = DefaultLeakyQuantizer::<f64, i32>::new(lo..=hi);
+            match model {
+                "gauss" => Box::new(Direct(q.quantize(Gaussian::new(p0f, p1f)))),
+                "laplace" => Box::new(Direct(q.quantize(Laplace::new(p0f, p1f)))),
+                _ => Box::new(Direct(q.quantize(Cauchy::new(p0f, p1f)))),
+            }
+        }
+        "uniform" => {
+            let size = i32::try_from(p0).map_err(|_| "size is not an i32".to_string())?;
+            Box::new(UniformModel::<u32, 24>::new(size as usize))
+        }
+        "bernoulli" => {
+            let p = p0f;
+            let probs = [1.0 - p, p];
+            let bad = |()| "Rust constructor rejected p".to_string();
+            match variant {
+                "fast" => Box::new(
+                    DefaultContiguousCategoricalEntropyModel::from_floating_point_probabilities_fast(&probs, None)
+                        .map_err(bad)?,
+                ),
+                _ => Box::new(
+                    DefaultContiguousCategoricalEntropyModel::from_floating_point_probabilities_perfect(&probs)
+                        .map_err(bad)?,
+                ),
+            }
+        }
+        "binomial" => {
+            let n = i32::try_from(p0).map_err(|_| "n is not an i32".to_string())?;
+            let q = DefaultLeakyQuantizer::<f64, i32>::new(0..=n);
+            Box::new(Direct(q.quantize(Binomial::new(n as usize, p1f))))
+        }
+        _ => return Err(format!("unknown model {}", model)),
+    })
+}
+
+/// `(models, concrete)`: one model if `concrete` (the i.i.d. code path of the bindings),
+/// otherwise one per symbol.
+fn build_models(c: &Case) -> Result<(Vec<Box<dyn DynModel>>, bool), String> {
+    let model = c.str("model")?;
+    let variant = c.str("variant")?;
+    let fbits = c.int("fbits")?;
+    let n = c.int("n")? as usize;
+    if model == "cat" {
+        let ncols = c.int("ncols")? as usize;
+        let probs = c.arr("probs")?;
+        if c.int("family")? == 0 {
+            if probs.len() != ncols {
+                return Err("probs/ncols mismatch".into());
+            }
+            return Ok((vec![build_cat(variant, fbits, probs)?], true));
+        }
+        if probs.len() != ncols * n || ncols == 0 {
+            return Err("probs/ncols/n mismatch".into());
+        }
+        // family: perfect -> eager perfect model per row, otherwise the lazy model per row
+        let v = if variant == "perfect" { "perfect" } else { "lazy" };
+        let mut ms = Vec::with_capacity(n);
+        for row in probs.chunks_exact(ncols) {
+            ms.push(build_cat(v, fbits, row)?);
+        }
+        return Ok((ms, false));
+    }
+    let lo = c.int("lo")? as i32;
+    let hi = c.int("hi")? as i32;
+    let k0 = c.str("p0kind")?;
+    let k1 = c.str("p1kind")?;
+    let p0 = c.arr("p0")?;
+    let p1 = c.arr("p1")?;
+    let p0_is_int = model == "uniform" || model == "binomial";
+    let concrete = k0 != "a" && k1 != "a";
+    let want = |kind: &str, v: &[i128], name: &str| -> Result<(), String> {
+        let need = match kind {
+            "s" => 1,
+            "a" => n,
+            _ => 0,
+        };
+        if v.len() != need {
+            Err(format!("{} has {} entries, expected {}", name, v.len(), need))
+        } else {
+            Ok(())
+        }
+    };
+    want(k0, p0, "p0")?;
+    want(k1, p1, "p1")?;
+    let at = |kind: &str, v: &[i128], j: usize| -> i128 {
+        match kind {
+            "s" => v[0],
+            "a" => v[j],
+            _ => 0,
+        }
+    };
+    let fl = |kind: &str, raw: i128| -> Result<f64, String> {
+        match kind {
+            "s" => f_of(raw, 64),
+            "a" => f_of(raw, fbits),
+            _ => Ok(0.0),
+        }
+    };
+    let count = if concrete { 1 } else { n };
+    let mut ms = Vec::with_capacity(count);
+    for j in 0..count {
+        let r0 = at(k0, p0, j);
+        let r1 = at(k1, p1, j);
+        let p0f = if p0_is_int { 0.0 } else { fl(k0, r0)? };
+        let p1f = fl(k1, r1)?;
+        ms.push(build_one(model, variant, lo, hi, r0, p0f, p1f)?);
+    }
+    Ok((ms, concrete))
+}
+
+fn show_u32(v: &[u32]) -> String {
+    format!("[{}]", v.iter().map(|w| format!("0x{:08x}", w)).collect::<Vec<_>>().join(","))
+}
+fn show_i32(v: &[i32]) -> String {
+    format!("{:?}", v).replace(' ', "")
+}
+
+fn first_diff<T: PartialEq>(a: &[T], b: &[T]) -> usize {
+    a.iter().zip(b.iter()).position(|(x, y)| x != y).unwrap_or(a.len().min(b.len()))
+}
+
+/// `Ok(())` = Rust agrees with Python; `Err(text)` = description of the disagreement
+fn run_case(c: &Case) -> Result<(), String> {
+    let coder = c.str("coder")?;
+    let n = c.int("n")? as usize;
+    let (models, concrete) = build_models(c)?;
+    let pydecoded = c.i32s("pydecoded")?;
+    let m = |j: usize| -> W<'_> {
+        if concrete {
+            W(&*models[0])
+        } else {
+            W(&*models[j])
+        }
+    };
+    let cmp_words = |what: &str, rust: &[u32], py: &[u32]| -> Result<(), String> {
+        if rust != py {
+            Err(format!(
+                "{} differ at index {}: rust={} python={}",
+                what,
+                first_diff(rust, py),
+                show_u32(rust),
+                show_u32(py)
+            ))
+        } else {
+            Ok(())
+        }
+    };
+    let cmp_syms = |rust: &[i32], py: &[i32]| -> Result<(), String> {
+        if rust != py {
+            Err(format!(
+                "decoded symbols differ at index {}: rust={} python={}",
+                first_diff(rust, py),
+                show_i32(rust),
+                show_i32(py)
+            ))
+        } else {
+            Ok(())
+        }
+    };
+    match coder {
+        "ans" => {
+            let msg = c.i32s("msg")?;
+            if msg.len() != n {
+                return Err("msg/n mismatch".into());
+            }
+            let mut enc = DefaultAnsCoder::new();
+            if concrete {
+                enc.encode_iid_symbols_reverse(&msg, m(0)).map_err(|e| format!("rust encode error: {:?}", e))?;
+            } else {
+                for j in (0..n).rev() {
+                    enc.encode_symbol(msg[j], m(j)).map_err(|e| format!("rust encode error at {}: {:?}", j, e))?;
+                }
+            }
+            let words: Vec<u32> = enc.get_compressed().map_err(|e| format!("{:?}", e))?.to_vec();
+            cmp_words("compressed words", &words, &c.u32s("pywords")?)?;
+            let mut dec = DefaultAnsCoder::from_compressed(words).map_err(|_| "rust from_compressed failed".to_string())?;
+            let mut out = Vec::with_capacity(n);
+            if concrete {
+                for s in dec.decode_iid_symbols(n, m(0)) {
+                    out.push(s.map_err(|e| format!("{:?}", e))?);
+                }
+            } else {
+                for j in 0..n {
+                    out.push(dec.decode_symbol(m(j)).map_err(|e| format!("{:?}", e))?);
+                }
+            }
+            cmp_syms(&out, &pydecoded)
+        }
+        "range" => {
+            let msg = c.i32s("msg")?;
+            if msg.len() != n {
+                return Err("msg/n mismatch".into());
+            }
+            let mut enc = DefaultRangeEncoder::new();
+            if concrete {
+                enc.encode_iid_symbols(&msg, m(0)).map_err(|e| format!("rust encode error: {:?}", e))?;
+            } else {
+                for j in 0..n {
+                    enc.encode_symbol(msg[j], m(j)).map_err(|e| format!("rust encode error at {}: {:?}", j, e))?;
+                }
+            }
+            let words: Vec<u32> = enc.get_compressed().to_vec();
+            cmp_words("compressed words", &words, &c.u32s("pywords")?)?;
+            let mut dec = DefaultRangeDecoder::from_compressed(words).map_err(|e| format!("{:?}", e))?;
+            let mut out = Vec::with_capacity(n);
+            if concrete {
+                for s in dec.decode_iid_symbols(n, m(0)) {
+                    out.push(s.map_err(|e| format!("rust decode error: {:?}", e))?);
+                }
+            } else {
+                for j in 0..n {
+                    out.push(dec.decode_symbol(m(j)).map_err(|e| format!("rust decode error at {}: {:?}", j, e))?);
+                }
+            }
+            cmp_syms(&out, &pydecoded)
+        }
+        "chain" => {
+            let data = c.u32s("data")?;
+            let mut coder = DefaultChainCoder::from_binary(data).map_err(|_| "rust from_binary failed".to_string())?;
+            let mut out = Vec::with_capacity(n);
+            if concrete {
+                for s in coder.decode_iid_symbols(n, m(0)) {
+                    out.push(s.map_err(|e| format!("rust decode error: {:?}", e))?);
+                }
+            } else {
+                for j in 0..n {
+                    out.push(coder.decode_symbol(m(j)).map_err(|e| format!("rust decode error at {}: {:?}", j, e))?);
+                }
+            }
+            cmp_syms(&out, &pydecoded)?;
+            let (prefix, suffix) = coder.clone().into_remainders().map_err(|e| format!("{:?}", e))?;
+            cmp_words("remainders prefix", &prefix, &c.u32s("pyprefix")?)?;
+            cmp_words("remainders suffix", &suffix, &c.u32s("pysuffix")?)?;
+            if concrete {
+                coder.encode_iid_symbols_reverse(&out, m(0)).map_err(|e| format!("rust re-encode error: {:?}", e))?;
+            } else {
+                for j in (0..n).rev() {
+                    coder.encode_symbol(out[j], m(j)).map_err(|e| format!("rust re-encode error at {}: {:?}", j, e))?;
+                }
+            }
+            let (rp, rs) = coder.into_binary().map_err(|_| "rust into_binary failed".to_string())?;
+            cmp_words("recovered prefix", &rp, &c.u32s("pyrecprefix")?)?;
+            cmp_words("recovered suffix", &rs, &c.u32s("pyrecsuffix")?)
+        }
+        _ => Err(format!("unknown coder {}", coder)),
+    }
+}
+
+fn len_bucket(n: usize) -> &'static str {
+    match n {
+        0 => "0",
+        1 => "1",
+        2..=9 => "2-9",
+        10..=49 => "10-49",
+        50..=149 => "50-149",
+        _ => "150+",
+    }
+}
 
 /// `cases` = path of a JSON-lines file written by tools/pyfront.py; results go into `rep`
-pub fn run_cases(_cases: &str, _rep: &mut Report) {}
+pub fn run_cases(cases: &str, rep: &mut Report) {
+    let text = match std::fs::read_to_string(cases) {
+        Ok(t) => t,
+        Err(e) => {
+            rep.fail("C06", format!("pyfront: cannot read cases file {}: {}", cases, e));
+            return;
+        }
+    };
+    for (lineno, line) in text.lines().enumerate() {
+        let line = line.trim();
+        if line.is_empty() || line.starts_with('#') {
+            continue;
+        }
+        let short = |l: &str| -> String {
+            if l.len() <= 3000 {
+                l.to_string()
+            } else {
+                let mut end = 3000;
+                while !l.is_char_boundary(end) {
+                    end -= 1;
+                }
+                format!("{}… ({} bytes; full line {} of {})", &l[..end], l.len(), lineno + 1, cases)
+            }
+        };
+        let case = match parse_line(line) {
+            Some(m) => Case(m),
+            None => {
+                rep.fail("C06", format!("pyfront: unparseable case line {} of {}: {}", lineno + 1, cases, short(line)));
+                continue;
+            }
+        };
+        let coder = case.str("coder").unwrap_or("?").to_string();
+        let model = case.str("model").unwrap_or("?").to_string();
+        let variant = case.str("variant").unwrap_or("").to_string();
+        let family = match case.0.get("family") {
+            Some(J::Int(1)) => true,
+            Some(J::Int(_)) => false,
+            _ => case.str("p0kind").unwrap_or("") == "a" || case.str("p1kind").unwrap_or("") == "a",
+        };
+        let fbits = case.int("fbits").unwrap_or(0);
+        let n = case.int("n").unwrap_or(0) as usize;
+        rep.eval("C06");
+        rep.count(&format!("pyfront.rust.{}.{}{}{}", coder, model, if variant.is_empty() { "".into() } else { format!("-{}", variant) }, if family { ".family" } else { ".concrete" }));
+        rep.count(&format!("pyfront.rust.f{}", fbits));
+        rep.count(&format!("pyfront.rust.len.{}", len_bucket(n)));
+        let outcome = match guarded(|| run_case(&case)) {
+            Ok(r) => r,
+            Err(class) => Err(format!("rust side panicked ({}: {})", class, last_panic())),
+        };
+        match outcome {
+            Ok(()) => {
+                rep.sample("C06", || {
+                    format!(
+                        "python==rust {} {}{} n={} words={}",
+                        coder,
+                        model,
+                        if variant.is_empty() { "".into() } else { format!("-{}", variant) },
+                        n,
+                        case.u32s("pywords").map(|w| show_u32(&w)).unwrap_or_else(|_| "-".into())
+                    )
+                });
+            }
+            Err(text) => {
+                let tag = case.str("tag").unwrap_or("").to_string();
+                let id = case.int("id").unwrap_or(-1);
+                rep.fail(
+                    "C06",
+                    format!(
+                        "python front end vs rust API: {} [{} case {} {} {}{}] case={}",
+                        text,
+                        tag,
+                        id,
+                        coder,
+                        model,
+                        if variant.is_empty() { "".into() } else { format!("-{}", variant) },
+                        short(line)
+                    ),
+                );
+            }
+        }
+    }
+}
